@@ -253,6 +253,15 @@ def run(chk):
                             "(%d here, TLC: %s)" % (len(all3), m.group(1) if m else "?"))
         t, n, m = _drive(chk, None, ["p1", "p2", "p3"], ["a", "b", "c"], "3", progs3, pre3)
         total, nontriv, matched = total + t, nontriv + n, matched + m
+    # the error path WITHOUT a cycle: a factory raises on its own, later invocations on the same instance must be served
+    from harness.drivers import resources as drv_f
+    fcases = drv_f.factory_failure_cases()
+    vf, _ = tracecheck.observe(chk, "obs/Obs_C22_fail.tla", "obs/Obs_C22_fail.cfg", {"traces": fcases}, name="obs_fail")
+    for i_, c_ in enumerate(fcases, 1):
+        if vf[i_][0] != "ok":
+            chk.violation("obs:%s" % vf[i_][0], "%s: first invocation %s, later ones %s / %s" % (
+                c_["label"], c_["first"], c_["second"], c_["third"]), c_)
+    chk.add(factory_failure_cases=len(fcases))
     chk.add(evaluations=total, distinct_nontrivial=nontriv, traces_validated_against_impl=matched)
     chk.assumptions += [
         "every invocation is a run of the same workflow instance (one ResourceManager), plus the one-run shape where "
